@@ -198,6 +198,12 @@ def rule_setiter(ctx, prop: str) -> RuleResult:
         res.analysed.append(f"{f.file}:{f.qualname}")
         key = (f.file, f.qualname, cons)
         why = SET_TRIAGE.get(key)
+        if why is None:
+            # the triage is about the construct; a helper that was renamed or hoisted out of its
+            # enclosing function keeps it (same file, same normalised text, unique entry)
+            cands = [v for (fl, _q, c_), v in SET_TRIAGE.items() if fl == f.file and c_ == cons]
+            if len(cands) == 1:
+                why = cands[0]
         if why is not None:
             res.ob(True)
             res.sample(f"{f.qualname}: `{cons}` — order-insensitive: {why}")
